@@ -57,6 +57,13 @@ def gen_cases(tier, seed):
     pauses = {'quick': [('upstream_stall', 6.5), ('slow_row', 2.5), ('upstream_stall', 1.5), ('slow_row', 6.5)],
               'thorough': [('upstream_stall', 6.5), ('slow_row', 2.5), ('upstream_stall', 1.5), ('slow_row', 6.5),
                            ('upstream_stall', 12.0), ('slow_row', 12.0)]}[tier]
+    for fam in ('slow_predicate_tail', 'slow_predicate'):
+        for w in (1, 2, 3):
+            for pred in ('every_3rd', 'all_false', 'first_selected_late', 'only_last'):
+                for n in ((17, 100) if tier == 'quick' else (3, 17, 100, 1000)):
+                    i += 1
+                    yield {'family': fam, 'workers': w, 'pred': pred, 'n': n, 'idx': i, 'seed': seed, 'rep': 0,
+                           'layout': 'single', 'yield_injection': False}
     for fam, secs in pauses:
         for w in (2, 3):
             i += 1
@@ -81,6 +88,13 @@ def child_main(case, logpath, outpath):
     if case.get('yield_injection'):
         install_yield_injection()
     pred = predicate_for(case['pred'], n)
+    if case['family'] in ('slow_predicate_tail', 'slow_predicate') and pred is not None:
+        inner = pred
+
+        def pred(row):      # user-supplied predicate that is slow (for the tail of the stream / for every row)
+            if case['family'] == 'slow_predicate' or row['id'] % 1000 >= (3 * n) // 4:
+                time.sleep(0.003)
+            return inner(row)
 
     pause = case.get('pause_s', 0)
 
@@ -261,7 +275,12 @@ def run_case(case):
         if name not in par and [r['id'] for r in rows_out] != [r['id'] for r in rows_in]:
             add('order_unselected_resource', 'resource %s (not parallelised) changed order' % name)
     for kind, msg in schedlab.check_log(ev, w, selected, bypass):
-        add(kind, msg)
+        if kind == 'apply_count':
+            add(kind, msg)          # observable at the user-supplied row function: part of the statement
+        else:
+            # queue conservation / end-marker counts and ordering / actor lifecycle describe the CURRENT queue protocol,
+            # not the property: a different correct protocol would look different. Reported as diagnostics only
+            cov.setdefault('protocol_diagnostics', {})[kind] = cov.setdefault('protocol_diagnostics', {}).get(kind, 0) + 1
     if res.get('active_children'):
         add('shutdown', '%d worker processes still alive after the flow returned' % res['active_children'])
     if res.get('threads'):
